@@ -87,6 +87,26 @@ def cmp_set(d, c_term):
     return {"Lt": [(0, k - 1)] if k > 0 else [], "Le": [(0, k)], "Gt": [(k + 1, top)] if k < top else [], "Ge": [(k, top)], "Eq": [(k, k)], "Ne": ([(0, k - 1)] if k > 0 else []) + ([(k + 1, top)] if k < top else [])}[op]
 
 
+def range_contains_set(d, c_terms):
+    """`(lo..=hi).contains(&c)` / `(lo..hi).contains(&c)` with constant bounds: the characters in the range"""
+    if not (util.is_call(d) and d[1].endswith("::contains") and ("std::ops::RangeInclusive" in d[1] or "std::ops::Range::" in d[1] or "RangeBounds" in d[1]) and len(d[2]) == 2):
+        return None
+    if strip(d[2][1]) not in [strip(c) for c in c_terms]:
+        return None
+    r = strip(d[2][0])
+    incl = None
+    if util.is_call(r, "std::ops::RangeInclusive::<Idx>::new") and len(r[2]) == 2:
+        lo, hi, incl = strip(r[2][0]), strip(r[2][1]), True
+    elif r[0] == "agg" and r[2] == "std::ops::RangeInclusive":
+        lo, hi, incl = strip(r[4][0]), strip(r[4][1]), True
+    elif r[0] == "agg" and r[2] == "std::ops::Range":
+        lo, hi, incl = strip(r[4][0]), strip(r[4][1]), False
+    if incl is None or lo[0] != "int" or hi[0] != "int":
+        return None
+    lo, hi = int(lo[1]), int(hi[1]) - (0 if incl else 1)
+    return [(lo, hi)] if lo <= hi else []
+
+
 def inter(a, b):
     out = []
     for x0, x1 in a:
@@ -674,6 +694,8 @@ def check_loop(ctx, rep, INNER_FN, se, pr, lp):
                 break
             ts = fs = None
             cm = cmp_any(d)
+            if cm is None:
+                cm = range_contains_set(d, aliases)
             if d[0] == "discr" and util.is_call(strip(d[1]), TRY_U8) and strip(strip(d[1])[2][0]) == strip(c_term):
                 # Result<u8, _> of u8::try_from(c): Ok (discriminant 0) exactly for c <= 0xFF
                 ok_set, err_set = inter(cs, [(0, 0xFF)]), minus(cs, [(0, 0xFF)])
@@ -880,6 +902,8 @@ def check_tail(ctx, rep, INNER_FN):
             cut = None
             if util.is_call(sl) and sl[1].endswith("::index") and sl[2][1][0] == "agg" and sl[2][1][2] == "std::ops::RangeTo":
                 cut = (sl[2][0], sl[2][1][4][0])
+            elif util.is_call(sl) and sl[1].endswith("::index") and sl[2][1][0] == "agg" and sl[2][1][2] == "std::ops::Range" and util.numnorm(sl[2][1][4][0])[:2] == ("int", 0):
+                cut = (sl[2][0], sl[2][1][4][1])        # s[0..length]
             elif sl[0] == "field" and sl[2] == 0 and util.is_call(sl[1], "core::slice::<impl [T]>::split_at") and len(sl[1][2]) == 2:
                 cut = (strip(sl[1][2][0]), sl[1][2][1])      # the part before the split point: s.split_at(length).0
             if cut is not None:
